@@ -755,7 +755,7 @@ fn main() {
         "verdict (accept | LintError variant + row) of the Lean model = verdict of rusty_linter::core::lint on generated programs, all their single-edit mutants and renamed copies; accepted programs never end in a wrong-kind failure at run time; every fault at every position is rejected with the family's error at the edited row; distinct = (fault family, syntactic position kind, verdict)",
     );
     let thorough = rep.is_thorough();
-    let n_progs = if thorough { 36 } else { 12 };
+    let n_progs = if thorough { 100 } else { 12 };
     let str_x = || E::Lit(T::Str, "\"x\"".into());
 
     #[derive(Clone)]
